@@ -710,8 +710,8 @@ func MatchLogfmtValue(p LPair, v any, requireQuote bool) error {
 	return nil
 }
 
-// MatchLogfmtAttrs compares parsed pairs with the flattened normalized expectation
-// (same keys, same order, values by meaning).
+// MatchLogfmtAttrs compares parsed pairs with the flattened normalized expectation: the same keys, each as often as
+// expected, values by meaning - in ANY order (only C06 and C07 state an order: MatchLogfmtAttrsOrdered).
 func MatchLogfmtAttrs(pairs []LPair, exp []ExpAttr, requireQuote bool) error {
 	flat := Flatten(exp, "")
 	if len(pairs) != len(flat) {
@@ -724,12 +724,45 @@ func MatchLogfmtAttrs(pairs []LPair, exp []ExpAttr, requireQuote bool) error {
 		}
 		return fmt.Errorf("record has attribute keys %q, want %q", got, want)
 	}
-	for i, a := range flat {
-		if pairs[i].Key != a.Key {
-			return fmt.Errorf("attribute #%d has key %q, want %q", i, pairs[i].Key, a.Key)
+	used := make([]bool, len(pairs))
+	for _, a := range flat {
+		found := -1
+		var lastErr error
+		for i, p := range pairs {
+			if used[i] || p.Key != a.Key {
+				continue
+			}
+			if err := MatchLogfmtValue(p, a.Val.V, requireQuote); err != nil {
+				lastErr = err
+				continue
+			}
+			found = i
+			break
 		}
-		if err := MatchLogfmtValue(pairs[i], a.Val.V, requireQuote); err != nil {
-			return fmt.Errorf("attribute %q (%s): %v", a.Key, a.Val.Kind, err)
+		if found < 0 {
+			if lastErr != nil {
+				return fmt.Errorf("attribute %q (%s): %v", a.Key, a.Val.Kind, lastErr)
+			}
+			var got []string
+			for _, p := range pairs {
+				got = append(got, p.Key)
+			}
+			return fmt.Errorf("attribute %q is missing; the record has the keys %q", a.Key, got)
+		}
+		used[found] = true
+	}
+	return nil
+}
+
+// MatchLogfmtAttrsOrdered is MatchLogfmtAttrs plus the order of the expectation (ascending keys after Normalize):
+// for the properties that state an order.
+func MatchLogfmtAttrsOrdered(pairs []LPair, exp []ExpAttr, requireQuote bool) error {
+	if err := MatchLogfmtAttrs(pairs, exp, requireQuote); err != nil {
+		return err
+	}
+	for i, a := range Flatten(exp, "") {
+		if pairs[i].Key != a.Key {
+			return fmt.Errorf("attribute #%d has key %q, want %q (ascending key order)", i, pairs[i].Key, a.Key)
 		}
 	}
 	return nil
